@@ -121,27 +121,40 @@ def rank (s : W) : Nat :=
   | .gotDone => 0
   | .exited => 0
 
+/-- The steps that are NOT the environment's: the poller's own steps and the channel close a caller
+    owes once it has won the once. Weak fairness is assumed for exactly these. (Pointer loads, once
+    attempts and `Close` calls/returns are the environment's; `takeDone` needs a `Close` call.) -/
+def isProtocol : Lbl → Bool
+  | .pollStart => true
+  | .pollEnd _ => true
+  | .timer => true
+  | .wake => true
+  | .mkChan => true
+  | .storePtr => true
+  | .closeCh _ => true
+  | _ => false
+
 /-- While a poll is coming and Close has not been called, some protocol step is enabled and brings it closer. -/
 theorem coming_progress (s : W) (hc : Coming s) :
-    ∃ l s', step s l = some s' ∧ (rank s' < rank s ∨ l = .pollStart) := by
+    ∃ l s', step s l = some s' ∧ isProtocol l = true ∧ (rank s' < rank s ∨ l = .pollStart) := by
   unfold Coming at hc
   rcases hc with h | h | h | ⟨h, hcl⟩
   · have e : step s .mkChan = some { s with ppc := .madeChan, cur := s.cur + 1 } := by simp [step, h]
-    exact ⟨_, _, e, by simp [rank, h]⟩
+    exact ⟨_, _, e, rfl, by simp [rank, h]⟩
   · have e : step s .storePtr = some { s with ppc := .top, ptr := s.cur } := by simp [step, h]
-    exact ⟨_, _, e, by simp [rank, h]⟩
+    exact ⟨_, _, e, rfl, by simp [rank, h]⟩
   · have e : step s .pollStart = some { s with ppc := .resolving, polls := s.polls + 1, callers := serveAll s.callers } := by
       simp [step, h]
-    exact ⟨_, _, e, Or.inr rfl⟩
+    exact ⟨_, _, e, rfl, Or.inr rfl⟩
   · have wakeCase : s.ppc = .atSelect → s.cur ∈ s.closed →
-        ∃ l s', step s l = some s' ∧ (rank s' < rank s ∨ l = .pollStart) := by
+        ∃ l s', step s l = some s' ∧ isProtocol l = true ∧ (rank s' < rank s ∨ l = .pollStart) := by
       intro h hcl
       have e : step s .wake = some { s with ppc := .woken } := by simp [step, h, hcl]
-      exact ⟨_, _, e, by simp [rank, h, hcl]⟩
+      exact ⟨_, _, e, rfl, by simp [rank, h, hcl]⟩
     rcases h with h | h
     · have e : step s (.pollEnd false) = some { s with ppc := .atSelect, cbAfterClose := s.cbAfterClose || (false && s.closer == .returned) } := by
         simp [step, h]
-      refine ⟨_, _, e, Or.inl ?_⟩
+      refine ⟨_, _, e, rfl, Or.inl ?_⟩
       simp [rank, h]; split <;> simp
     · rcases hcl with hcl | ⟨i, hw, hg⟩
       · exact wakeCase h hcl
@@ -150,7 +163,7 @@ theorem coming_progress (s : W) (hc : Coming s) :
         · cases e : step s (.closeCh i) with
           | none => simp [step, hw] at e
           | some s' =>
-            refine ⟨_, s', e, Or.inl ?_⟩
+            refine ⟨_, s', e, rfl, Or.inl ?_⟩
             simp [step, hw] at e
             subst e
             simp [rank, h, hcl, hg]
@@ -331,5 +344,169 @@ theorem inv_winner_current (s : W) (h : Inv s) (h2 : Inv2 s) (i : Nat) (hw : (s.
     refine ⟨heq, ?_, hm⟩
     intro hwk
     exact h1 (heq ▸ g5 hwk)
+
+/-! ### bounded liveness: a coming poll starts within 8 protocol steps -/
+
+/-- An upper bound on the number of protocol steps up to and including the next `pollStart`. -/
+def rank2 (s : W) : Nat :=
+  match s.ppc with
+  | .resolving => if s.cur ∈ s.closed then 7 else 8
+  | .atSelect => if s.cur ∈ s.closed then 5 else 6
+  | .woken => 4
+  | .madeChan => 3
+  | .top => if s.cur ∈ s.closed then 1 else 2
+  | .gotDone => 0
+  | .exited => 0
+
+theorem rank2_le (s : W) : rank2 s ≤ 8 := by
+  unfold rank2; cases s.ppc <;> simp <;> split <;> simp
+
+theorem coming_rank2_pos (s : W) (hc : Coming s) : 1 ≤ rank2 s := by
+  unfold Coming at hc; unfold rank2
+  rcases hc with h | h | h | ⟨h | h, _⟩ <;> simp [h] <;> split <;> simp
+
+theorem rank2_mono (s s' : W) (hp : s'.ppc = s.ppc) (hc : s'.cur = s.cur)
+    (hcl : s.cur ∈ s.closed → s.cur ∈ s'.closed) : rank2 s' ≤ rank2 s := by
+  unfold rank2
+  rw [hp, hc]
+  cases s.ppc <;> simp <;> split <;> split <;> simp_all
+
+theorem coming_step2 (s s' : W) (l : Lbl) (hi : Inv s) (h2 : Inv2 s) (hc : Coming s) (hidle : s.closer = .idle)
+    (hs : step s l = some s') (hl : l ≠ .closeCall) (hp : l ≠ .pollStart) :
+    Coming s' ∧ s'.closer = .idle ∧ rank2 s' ≤ rank2 s ∧ (isProtocol l = true → rank2 s' < rank2 s) := by
+  rcases coming_stable s s' l hi hc hidle hs hl with h | ⟨hc', hrk, hidle'⟩
+  · exact absurd h hp
+  clear hrk
+  refine ⟨hc', hidle', ?_⟩
+  have hcur := hi.a2
+  cases l with
+  | pollStart => exact absurd rfl hp
+  | closeCall => exact absurd rfl hl
+  | pollEnd cb =>
+    simp only [step] at hs; split at hs <;> simp at hs; subst hs
+    rename_i h; simp [rank2, h, isProtocol]; split <;> simp
+  | timer =>
+    simp only [step] at hs; split at hs <;> simp at hs; subst hs
+    rename_i h; simp [rank2, h.1, isProtocol]; split <;> simp
+  | wake =>
+    simp only [step] at hs; split at hs <;> simp at hs; subst hs
+    rename_i h; simp [rank2, h.1, h.2, isProtocol]
+  | takeDone =>
+    simp only [step] at hs; split at hs <;> simp at hs
+    rename_i h; simp [hidle] at h
+  | mkChan =>
+    simp only [step] at hs; split at hs <;> simp at hs; subst hs
+    rename_i h; simp [rank2, h, isProtocol]
+  | storePtr =>
+    simp only [step] at hs; split at hs <;> simp at hs; subst hs
+    rename_i h; simp [rank2, h, isProtocol]; split <;> simp
+  | closeDone =>
+    simp only [step] at hs; split at hs <;> simp at hs
+    rename_i h
+    unfold Coming at hc; simp [h] at hc
+  | load i =>
+    simp only [step] at hs; split at hs <;> simp at hs; subst hs
+    exact ⟨rank2_mono _ _ rfl rfl (fun h => h), by simp [isProtocol]⟩
+  | fire i =>
+    simp only [step] at hs
+    split at hs <;> try simp at hs
+    split at hs <;> simp at hs <;> subst hs
+    · exact ⟨rank2_mono _ _ rfl rfl (fun h => h), by simp [isProtocol]⟩
+    · exact ⟨rank2_mono _ _ rfl rfl (fun h => h), by simp [isProtocol]⟩
+  | closeCh i =>
+    simp only [step] at hs; split at hs <;> simp at hs; subst hs
+    rename_i hw
+    obtain ⟨hg, hnw, hnm⟩ := inv_winner_current s hi h2 i hw
+    have hncl : s.cur ∉ s.closed := hg ▸ h2.g1 i hw
+    refine ⟨rank2_mono _ _ rfl rfl (fun h => List.mem_cons_of_mem _ h), fun _ => ?_⟩
+    unfold Coming at hc
+    simp only [rank2, hg]
+    rcases hc with h | h | h | ⟨h | h, _⟩
+    · exact absurd h hnw
+    · exact absurd h hnm
+    · simp [h, hncl]
+    · simp [h, hncl]
+    · simp [h, hncl]
+  | closeRet =>
+    simp only [step] at hs; split at hs <;> simp at hs
+    rename_i h; simp [hidle] at h
+
+/-- Run-level bound: along ANY execution from a state with a coming poll (callers and the
+    scheduler may interleave arbitrarily; only `Close` must not be called), once `rank2 s` protocol
+    steps have been taken one of them was the poll start. -/
+theorem coming_served_within : ∀ (ls : List Lbl) (s s' : W), Inv s → Inv2 s → Coming s → s.closer = .idle →
+    GB.LTS.run step s ls = some s' → .closeCall ∉ ls → rank2 s ≤ (ls.filter isProtocol).length →
+    .pollStart ∈ ls
+  | [], s, _, _, _, hc, _, _, _, hk => by
+    have := coming_rank2_pos s hc
+    simp at hk; omega
+  | l :: rest, s, s', hi, h2, hc, hidle, hrun, hncl, hk => by
+    simp only [GB.LTS.run] at hrun
+    cases hst : step s l with
+    | none => simp [hst] at hrun
+    | some s1 =>
+      rw [hst] at hrun
+      by_cases hp : l = .pollStart
+      · simp [hp]
+      · have hl : l ≠ .closeCall := fun e => hncl (e ▸ List.mem_cons_self)
+        obtain ⟨hc1, hidle1, hle, hlt⟩ := coming_step2 s s1 l hi h2 hc hidle hst hl hp
+        have hi1 := inv_step s s1 l hi hst
+        have h21 := inv2_step s s1 l hi h2 hst
+        have hk1 : rank2 s1 ≤ (rest.filter isProtocol).length := by
+          by_cases hpr : isProtocol l = true
+          · have := hlt hpr
+            simp [hpr] at hk
+            omega
+          · simp [hpr] at hk
+            omega
+        exact List.mem_cons_of_mem _
+          (coming_served_within rest s1 s' hi1 h21 hc1 hidle1 hrun (fun h => hncl (List.mem_cons_of_mem _ h)) hk1)
+
+/-- `served` is a faithful ghost: once a call has loaded the pointer it keeps its identity, a poll
+    start marks it served, and the mark stays. -/
+theorem served_after_pollStart : ∀ (ls : List Lbl) (s s' : W) (i : Nat), GB.LTS.run step s ls = some s' →
+    (s.callers i).pc ≠ .start → ((s.callers i).served = true ∨ .pollStart ∈ ls) →
+    (s'.callers i).pc ≠ .start ∧ (s'.callers i).served = true
+  | [], s, s', i, hrun, hpc, hsv => by
+    simp [GB.LTS.run] at hrun; subst hrun
+    simpa [hpc] using hsv
+  | l :: rest, s, s', i, hrun, hpc, hsv => by
+    simp only [GB.LTS.run] at hrun
+    cases hst : step s l with
+    | none => simp [hst] at hrun
+    | some s1 =>
+      rw [hst] at hrun
+      have key : (s1.callers i).pc ≠ .start ∧ ((s1.callers i).served = true ∨ .pollStart ∈ rest) := by
+        cases l <;> simp only [step] at hst
+        case pollStart =>
+          split at hst <;> simp at hst; subst hst
+          simp [serveAll, hpc]
+        case load j =>
+          split at hst <;> simp at hst; subst hst
+          rename_i hj
+          have hne : i ≠ j := fun e => hpc (e ▸ hj)
+          simpa [setCaller, hne, hpc] using hsv
+        case fire j =>
+          split at hst <;> try simp at hst
+          split at hst <;> simp at hst <;> subst hst
+          · by_cases e : i = j <;> simp_all [setCaller]
+          · by_cases e : i = j <;> simp_all [setCaller]
+        case closeCh j =>
+          split at hst <;> simp at hst; subst hst
+          by_cases e : i = j <;> simp_all [setCaller]
+        all_goals (split at hst <;> simp at hst; subst hst; simpa [hpc] using hsv)
+      exact served_after_pollStart rest s1 s' i hrun key.1 key.2
+
+/-! ### a further Close call -/
+
+theorem sendOnDone_after_served (s : W) (hi : Inv s) (h : s.closer = .sent ∨ s.closer = .returned) :
+    sendOnDone s ≠ .delivered ∧ (s.ppc = .exited → sendOnDone s = .panics) ∧
+    (s.ppc = .gotDone → ∃ s', step s .closeDone = some s' ∧ sendOnDone s' = .panics) := by
+  have hp := hi.e2 h
+  refine ⟨?_, ?_, ?_⟩
+  · rcases hp with hp | hp <;> simp [sendOnDone, hp]
+  · intro he; simp [sendOnDone, he]
+  · intro hg
+    exact ⟨{ s with ppc := .exited }, by simp [step, hg], by simp [sendOnDone]⟩
 
 end GB.C15
